@@ -13,7 +13,8 @@ READ, WRITE = 1, 2
 
 
 def key_from_seed(seed):
-    return seed ^ 0xFFFF
+    # deliberately NOT its own inverse (seed ^ 0xFFFF would hide a check that applies the algorithm to the wrong operand)
+    return (seed + 0x1234) % 0x10000
 
 
 class Rig:
